@@ -1,5 +1,6 @@
 import NbioVerif.Lemmas.WsLimits
 import NbioVerif.Lemmas.WsTables
+import NbioVerif.Lemmas.WsUpProof
 /-! C15 — WebSocket size limits hold, including against decompression bombs.
 
     Model: `Ws.parse` (Conn.Parse / nextFrame / readAll) fed by `Ws.feed` with any list of segments, from the initial
@@ -99,6 +100,18 @@ theorem c15_cache_bound_partial (g : Cfg) (e : Env) (segs : List Bytes) (B : Nat
     (feed g e {} segs []).s.cache.length ≤ max g.readLimit B := by
   have := feed_limits g e B segs {} [] hB (by intro _; simp [msgLen, K.len]) (by intro _; simp) (by intro _ t p hp; cases hp)
   exact this.2.2 hr
+
+/-- C15 behind an upgrade hand-off: whatever follows a 101 response through the client connection's parser, in any
+    segmentation, no delivered message exceeds the limit -/
+theorem c15_delivered_within_handoff (g : Cfg) (e : Env) (hl : g.readLimit = 0) (head ws : Bytes)
+    (hpre : (head ++ ws).take 13 = statusPrefix) (hend : headEnd head = some head.length)
+    (segs : List Bytes) (hsegs : segs.flatten = head ++ ws) (hL : g.msgLimit > 0) (t : Nat) (p : Bytes)
+    (h : Act.deliver t p ∈ (upFeed g e {} segs []).2.acts) : p.length ≤ g.msgLimit := by
+  have hobs := upFeed_handoff g e hl head ws hpre hend segs hsegs
+  have ha : (upFeed g e {} segs []).2.acts = (feed g e {} [ws] []).acts := by
+    have := congrArg (fun o => o.1) hobs; simpa [PR.obs] using this
+  rw [ha] at h
+  exact c15_delivered_within g e [ws] hL t p h
 
 /-! non-vacuity -/
 
